@@ -17,8 +17,9 @@ HEADER = ["From Coq Require Import List ZArith QArith Qcanon.",
 OPCODE = dict(REM_FEATURES=1, CREATE_LEAF=2, SPLIT_NAIVE=3, SPLIT_ROWS=4, SPLIT_COLS=5)
 
 
-def gen_data(rs, kind, n, d):
-    """data, distributions, domains with constant / duplicated columns and cluster structure."""
+def gen_data(rs, kind, n, d, offsets=False):
+    """data, distributions, domains with constant / duplicated columns and cluster structure.
+    offsets: continuous columns may sit far from the origin with a small spread (a temperature in Kelvin, a counter)."""
     from deeprob.spn.structure.leaf import Bernoulli, Categorical, Gaussian
     z = rs.randint(0, 3, size=n)
     cols = []; dists = []; doms = []
@@ -30,7 +31,11 @@ def gen_data(rs, kind, n, d):
         elif t == "cat":
             c = ((z + rs.randint(0, 2, size=n) * (j % 2 + 1)) % 3).astype(np.float32); dists.append(Categorical); doms.append([0, 1, 2])
         else:
-            c = (rs.randn(n) + 2.0 * ((z + j) % 3)).astype(np.float32); dists.append(Gaussian); doms.append((float(c.min()) - 1, float(c.max()) + 1))
+            c = rs.randn(n) + 2.0 * ((z + j) % 3)
+            if offsets and rs.rand() < 0.6:
+                loc, sc = [(293.15, 0.02), (1000.1, 0.05), (1.0e4, 0.5), (-77.7, 0.01), (0.1, 1e-4)][rs.randint(5)]
+                c = loc + sc * c
+            c = c.astype(np.float32); dists.append(Gaussian); doms.append((float(c.min()) - 1, float(c.max()) + 1))
         cols.append(c)
     X = np.stack(cols, axis=1)
     if d >= 3 and rs.rand() < 0.4:
